@@ -1,6 +1,6 @@
 """Stand-alone replay (C04 candidate): does the datetime UNIT of a key column change a simulant's position?
 
-    /venv/bin/python /verif/corpus/C04/datetime_unit_replay.py         (exit 1 = the same key got different positions)
+    /venv/bin/python /verif/fixes/FAJ_demo.py         (exit 1 = the same key got different positions)
 
 IndexMap._clip_to_seconds floor-divides column.astype(int64) by 10**9 "to get seconds" whatever unit the column holds.
 pandas 3 stores Timestamp scalars / to_datetime results in MICROseconds, numpy datetime64[ns] arrays in NANOseconds.
